@@ -12,7 +12,7 @@ import iolog
 def c03(pid, tier, seed, scratch):
     bindir = C.build()
     X.ensure_shim()
-    n_hist, ops, max_points, per_point, cap = (5, 10, 60, 8, 900) if tier == "quick" else (30, 25, None, 12, 20000)
+    n_hist, ops, max_points, per_point, cap = (5, 10, 60, 8, 900) if tier == "quick" else (30, 25, None, 12, 12000)
     rep = K._report("crash-images[power-loss]", seed,
                     "same recorded histories as C02; per inode the content as of its last fsync plus the ordered un-synced writes/truncates, per directory the names as of the "
                     "last directory fsync plus pending name operations; at each crash point the fault choices {none survive, all survive, each single un-synced event dropped, "
@@ -83,7 +83,7 @@ def c03(pid, tier, seed, scratch):
 def c04(pid, tier, seed, scratch):
     bindir = C.build()
     X.ensure_shim()
-    n_hist, ops, n_seed_imgs, nested = (4, 10, 8, 4) if tier == "quick" else (25, 25, 150, 8)
+    n_hist, ops, n_seed_imgs, nested = (4, 10, 8, 4) if tier == "quick" else (10, 20, 30, 6)
     rep = K._report("crash-during-recovery", seed,
                     "crash images of C02 that open but need work at open time (pending log records) are opened under the recorder; the result of that uninterrupted open is the baseline; "
                     "every prefix of the open's own mutation stream is a new image that a later uninterrupted open must recover to the baseline; nested to depth 3 (sampled); re-opening the "
